@@ -486,7 +486,8 @@ UPPER = ["A", "B", "Foo", "Bar", "Pose3", "Point2", "Matrix", "Test", "MyClass",
 LOWER = ["a", "b", "gtsam", "ns1", "ns2", "inner", "detail", "x", "noise", "geo", "n", "util"]
 MNAMES = ["f", "g", "get", "set", "value", "print", "equals", "dim", "at", "insert", "update", "size",
           "x_set_y", "serialize", "retract", "localCoordinates", "name", "h", "doIt", "operatorX",
-          "svg", "lambda", "def", "from", "None", "pass", "markdown", "clone", "create", "async"]
+          "svg", "lambda", "def", "from", "None", "pass", "markdown", "clone", "create", "async",
+          "e", "z", "b", "s", "al", "able", "serial", "liz", "ser", "izable", "pick", "le", "deserialize", "unpickle"]
 ANAMES = ["x", "y", "z", "a", "b", "key", "value", "p", "t", "s", "n", "other", "tol", "i", "j", "d"]
 TPNAMES = ["T", "U", "V", "POSE", "POINT", "ARG", "N", "D", "CAL"]
 ENUMERATORS = ["Red", "Green", "Blue", "A", "B", "C", "Dog", "Cat", "kOne", "kTwo", "X", "Y", "SGD", "NONE"]
@@ -537,11 +538,17 @@ class Cfg:
         self.p_twin_arg = 0.0        # chance that an argument repeats an earlier templated argument type with other inner qualifiers
         self.p_kwlike = 0.0          # chance that a name starts with / contains a keyword of the dialect (classification, structure_t, …)
         self.p_member_template = None  # chance of a member-level template (default p_template * 0.6)
+        self.p_fwd_twin = 0.0        # chance that a forward declaration repeats the last one's class name under other namespaces
+        self.p_this_args = 0.0       # chance that a templated type inside a class gets several `This::X` template arguments
+        self.typedef_enclosing_kinds = None  # restrict typedef_enclosing to targets of these kinds ('cls', 'func', 'fwd')
+        self.typedef_enclosing = 0.0  # chance that a typedef is placed in an enclosing scope, before the namespace of its template
         self.extra_member_kinds = []  # member kinds to favour ('op', 'dunder', 'enum', …)
         self.ns_pool = None          # namespace names are drawn from this pool (small pool = re-opened namespaces)
         self.n_typedefs = None       # number of typedefs added by gen_module_inst (default: 0-4)
         self.mnames = None           # pool of method / function names (default MNAMES)
         self.c02_safe = False        # stay inside the guard of C02_inst_eq_subst_partial (see Props/C02.lean)
+        self.p_values_insert = 0.0   # probability that a class is a `…Values` container with insert(size_t, X) overloads
+        self.p_scoped_deep = 0.0     # probability that a scoped use of a parameter has more than one level (T::traits::value_type)
         self.__dict__.update(kw)
 
 
@@ -589,11 +596,13 @@ class Gen:
         if tparams and r < 0.35:
             return [], self.rng.choice(tparams)
         if tparams and r < 0.42:
+            # a scoped use of a parameter: T::Value, or (p_scoped_deep) several levels deep: T::traits::value_type
+            deep = [self.rng.choice(["traits", "detail", "impl", "Measurement"])] if self.rng.random() < self.cfg.p_scoped_deep else []
             if not safe:
-                return [self.rng.choice(tparams)], self.rng.choice(["Value", "Type", "Jacobian"])
+                return [self.rng.choice(tparams)] + deep, self.rng.choice(["Value", "Type", "Jacobian"])
             ok = [t for t in tparams if t not in self.noscope]
             if ok and self.nest == 0:
-                return [self.rng.choice(ok)], self.rng.choice(["value_type", "iterator", "scalar"])
+                return [self.rng.choice(ok)] + deep, self.rng.choice(["value_type", "iterator", "scalar"])
         if self.cfg.allow_This and self.in_class and r < 0.47 and (not safe or self.nest == 0):
             return [], "This"
         if self.cfg.allow_This and self.in_class and r < 0.50 and (not safe or (self.nest == 0 and self.ns_depth == 0)):
@@ -628,6 +637,11 @@ class Gen:
                 self.nest -= 1
             if self.cfg.digit_names and rng.random() < 0.15:
                 params[rng.randrange(n)] = Ty([], str(rng.choice([1, 2, 3, 6, 12, 100])), None, False, '', False)
+            if self.in_class and self.nest == 0 and ns != ["This"] and self.cfg.p_this_args and rng.random() < self.cfg.p_this_args:
+                # several nested names of the class itself as template arguments: std::map<This::Key, This::Value>
+                k2 = rng.choice([2, 2, 3])
+                params = [Ty(["This"], x, None, False, rng.choice(['', '', '*', '@']), False)
+                          for x in rng.sample(["Key", "Value", "Node", "Weight", "Sub"], k2)]
             return Ty(ns, name, params, const, suffix, False)
         ns, name = self.typename_parts(tparams)
         return Ty(ns, name, None, const, suffix, False)
@@ -831,6 +845,22 @@ class Gen:
                                           or "This" in parent.ns):
                     parent = Ty([], "Base", None, False, '', False)   # a plain base is never instantiated (known finding C02-9)
         members = [self.gen_member(name, ctp) for _ in range(rng.randint(0, self.cfg.max_members))]
+        if self.cfg.p_values_insert and rng.random() < self.cfg.p_values_insert:
+            # containers in the style of gtsam::Values (the pybind generator has a special case for exactly that class):
+            # classes whose names END in `Values`, with insert(size_t, X) overloads
+            name = rng.choice(["", "", "Vector", "My", "Nav"]) + "Values"
+            if self.cfg.unique_names:
+                used = self.scopes[-1]["classes"]
+                if name in used:
+                    self.counter += 1
+                    name = "V%d%s" % (self.counter, name)
+                used.add(name)
+            for _ in range(rng.randint(1, 3)):
+                second = self.gen_ty(depth=1, tparams=tuple(ctp))
+                members.append(Member('method', ret=Ret(Ty([], "void", None, False, '', True)), name="insert",
+                                      args=[Arg(Ty([], "size_t", None, False, '', True), rng.choice(["j", "key", "n"])),
+                                            Arg(second, rng.choice(["value", "x", "pose"]))], const=False))
+            members = [mm for mm in members if mm.kind != 'ctor']
         return Class(tmpl, rng.random() < self.cfg.p_virtual, name, parent, members)
 
     def gen_decl(self, depth):
@@ -870,6 +900,13 @@ class Gen:
             return Decl('func', tmpl=tmpl, ret=self.gen_ret(tps), name=fname, args=self.gen_args(tps))
         if k == 'fwd':
             tn = TN([self.nsname() for _ in range(rng.choice([0, 0, 1, 2]))], self.cname())
+            last = self.scopes[-1].get("last_fwd")
+            if last is not None and self.cfg.p_fwd_twin and rng.random() < self.cfg.p_fwd_twin:
+                # another class with the same unqualified name: `class gtsam::Values;` `class gtdynamics::Values;`
+                ns2 = [self.nsname() for _ in range(rng.choice([1, 2]))]
+                if ns2 != last.ns:
+                    tn = TN(ns2, last.name)
+            self.scopes[-1]["last_fwd"] = tn
             par = None
             if rng.random() < 0.3:
                 par = TN([self.nsname() for _ in range(rng.choice([0, 1]))], self.cname())
@@ -988,6 +1025,21 @@ def gen_module_inst(g: Gen, n_typedefs=None, p_bad_arity=0.03, p_missing=0.03):
         tn = TN(list(path), name, [g.gen_inst(0 if (g.cfg.c02_safe or g.cfg.matlab_safe) else 1) for _ in range(n)])
         g.counter += 1
         d = Decl('typedef', tn=tn, new_name="%sTd%d" % (name, g.counter))
+        placed = False
+        if g.cfg.typedef_enclosing and path and rng.random() < g.cfg.typedef_enclosing and (
+                g.cfg.typedef_enclosing_kinds is None or kind in g.cfg.typedef_enclosing_kinds):
+            # in an enclosing scope, textually before the namespace block that holds the template
+            k = rng.randrange(len(path))
+            anc = next((c for p_, c in spaces if list(p_) == list(path[:k])), None)
+            if anc is not None:
+                j = next((i for i, x in enumerate(anc) if x.kind == 'ns' and x.name == path[k]), None)
+                if j is not None:
+                    anc.insert(j, d)
+                    placed = True
+        if placed:
+            if kind != 'func':
+                prev = None
+            continue
         if g.cfg.typedef_same_ns:
             content = next(c for p_, c in spaces if p_ == path)
         else:
